@@ -4,8 +4,11 @@ import TabulaModel.Model.Reader
 /-!
 Line protocol of C01 (bytes are lower-case hex, `-` = empty):
 
-* `c01.ptree <tree>` — page-tree flattening (`PdfDoc.flatten`)
+* `c01.ptree <tree>` — the page-tree walk with its depth limit (`PdfDoc.traverse 0`): the
+  flattened leaves, or `err` for a tree of more than 10000 levels
 * `c01.join <parts>` — content join (`PdfDoc.joinContents`)
+* `c01.joinfit <lengths>` — the 64 MiB limit of the content join on the decoded lengths of a
+  page's content streams, `,`-separated (`PdfDoc.fitsLoop 0`): `ok` or `err`
 * `c01.read <start> <sections> <objects> <inflate> <nfc>` — the end-to-end reader model
   (`Reader.readPages`) on an abstract file:
   - `start`    decimal offset after the last `startxref`
@@ -162,9 +165,14 @@ def handle (op : String) (args : List String) : String :=
   | "c01.ptree", [t] =>
     match parseTree (tokenize t) with
     | some (tree, []) =>
-      let ls := flatten tree {}
-      s!"n={countLeaves tree} " ++ ";".intercalate (ls.map showAttrs)
+      match traverse 0 tree {} with
+      | some ls => s!"n={ls.length} " ++ ";".intercalate (ls.map showAttrs)
+      | none => "err"
     | _ => "bad-op"
+  | "c01.joinfit", [lens] =>
+    match (if lens == "-" then some [] else (lens.splitOn ",").mapM String.toNat?) with
+    | some ls => if fitsLoop 0 ls then "ok" else "err"
+    | none => "bad-op"
   | "c01.join", [parts] =>
     match (if parts == "" then some [] else (parts.splitOn ",").mapM unhex) with
     | some ps =>
